@@ -200,6 +200,8 @@ var (
 		oPat(PatSpec{Scheme: "https", Subs: true, Host: "city.kawasaki.jp"}, false, false),
 		oPat(PatSpec{Scheme: "https", Subs: true, Host: "www.ck"}, false, false),
 		oPat(PatSpec{Scheme: "https", Host: "foo.kawasaki.jp"}, false, false),
+		oPat(PatSpec{Scheme: "https", Host: "xn--4dbc.com"}, false, false), // a valid right-to-left label
+		oPat(PatSpec{Scheme: "https", Host: longHost(253) + ".", Port: 65535}, false, false),
 		// the smallest and the largest port, next to other ports of the same host (boundary constants, wave 11)
 		oPat(PatSpec{Scheme: "https", Host: "example.com", Port: 65535}, false, false),
 		oPat(PatSpec{Scheme: "https", Host: "example.com", Port: 1}, false, false),
@@ -219,6 +221,9 @@ var (
 		oPat(PatSpec{Scheme: "http", Host: "2001:db8::1", IP6: true}, true, false),
 		oPat(PatSpec{Scheme: "http", Host: "2001:db8::1", IP6: true, Port: 8080}, true, false),
 		oPat(PatSpec{Scheme: "http", Host: "128.0.0.1"}, true, false),
+		// every documented maximum at once: 64-byte scheme, 253-byte host plus trailing dot, 5-digit port (327 bytes)
+		oPat(PatSpec{Scheme: strings.Repeat("s", 64), Host: longHost(253) + ".", Port: 65535}, true, false),
+		oPat(PatSpec{Scheme: strings.Repeat("t", 64), Host: longHost(253), Port: 65535}, true, false),
 		// hosts that merely END in localhost / are covered by a broader pattern of the tables
 		oPat(PatSpec{Scheme: "http", Host: "a.localhost"}, true, false),
 		oPat(PatSpec{Scheme: "http", Host: "a.localhost", Port: 8080}, true, false),
@@ -274,6 +279,16 @@ var (
 		oBad("https://example.com:0", "zero-port", ""),
 		oBad("https://example.com:65536", "port-range", ""),
 		oBad("https://example.com:123456", "port-long", ""),
+		oBad("https://example.com:18446744073709551616", "port-wraps-to-none", ""),
+		oBad("https://example.com:18446744073709551617", "port-wraps-to-1", ""),
+		oBad("https://example.com:18446744073709560000", "port-wraps", ""),
+		oBad("https://*.example.com:18446744073709559696", "port-wraps", ""),
+		oBad("https://example.com:4294967297", "port-wraps-32", ""),
+		oBad("https://example.com:1"+strings.Repeat("0", 64), "port-wraps-to-none", ""),
+		// Punycode labels that decode to text violating the IDNA Bidi rule (no browser can have such an origin)
+		oBad("https://xn--a-0hc.com", "idna-bidi", ""),
+		oBad("https://xn--a-zhc.example.com", "idna-bidi", ""),
+		oBad("https://1a.xn--4dbc", "idna-bidi", ""),
 		oBad("https://example.com:08080", "port-leading-zero", ""),
 		oBad("https://example.com:443", "default-port", ""),
 		oBad("http://example.com:80", "default-port", ""),
